@@ -157,5 +157,13 @@ theorem fold_is_run (c : Cursor) (pre : List End) : pre.foldl (fun c e => (c.ste
 theorem len_is_the_source (c : Cursor) : Gen.Kernel.iter_len c.index c.end_ = .ok (.ret c.len) :=
   KernelTie.iter_len_tie c
 
+/-- **source tie**: `Cursor.next` / `Cursor.nextBack` are `Iter::next` / `Iter::next_back` of `/repo/src/iter.rs` as
+re-translated on this run (guard, yielded slot, cursor update, in this order), and `Iter::clone` copies the cursor. -/
+theorem cursor_is_the_source (c : Cursor) :
+    Gen.Kernel.iter_next c.index c.end_ = .ok (.step c.next.1 c.next.2.index c.next.2.end_) ∧
+    Gen.Kernel.iter_next_back c.index c.end_ = .ok (.step c.nextBack.1 c.nextBack.2.index c.nextBack.2.end_) ∧
+    Gen.Kernel.iter_clone c.index c.end_ = .ok (.made 0 [c.index, c.end_]) :=
+  ⟨KernelTie.iter_next_tie c, KernelTie.iter_next_back_tie c, KernelTie.iter_clone_tie c⟩
+
 end C14
 end AnyVec
